@@ -147,8 +147,8 @@ def parse_vspec(path):
             raw_target = body
         elif kw == "hint":
             body = []
-            if rest.strip() == "tail":
-                cur_fn.hints.append(("tail", "", 1, body))
+            if rest.strip() in ("tail", "end"):
+                cur_fn.hints.append((rest.strip(), "", 1, body))
             else:
                 m = re.match(r"(before|after)\s+(\"(?:[^\"\\]|\\.)*\")(\s+#(\d+))?$", rest)
                 if not m:
@@ -199,7 +199,7 @@ class Edits:
 
     def apply(self):
         # stable: inserts at same position keep the order given by prio then registration order
-        eds = sorted(enumerate(self.edits), key=lambda e: (e[1][0], e[1][3], e[0]))
+        eds = sorted(enumerate(self.edits), key=lambda e: (e[1][0], 0 if e[1][0] == e[1][1] else 1, e[1][3], e[0]))
         out = []
         cur = 0
         # an edit that lies inside a region replaced by a larger edit is subsumed by it
@@ -436,6 +436,10 @@ def process_fn(toks, it, fs: FnSpec, qual, ed: Edits, log, unit_in_trait_impl):
         chk0 = norm("\n".join(raw))
         if not (chk0.startswith("proof {") or chk0.startswith("assert") or chk0.startswith("let ghost")):
             raise SystemExit(f"{qual}: hint must be ghost code (proof block, assert, let ghost)")
+        if where == "end":
+            # end of a body that finishes with a statement (unit-returning functions)
+            ed.insert(toks[it.body_close].pos, "\n" + "\n".join(raw) + "\n", prio=-2)
+            continue
         if where == "tail":
             # before the tail expression of the body: after the last depth-0 `;` or `}` of the body
             k = lo
